@@ -195,7 +195,9 @@ TABLE: List[Tuple[str, List[str]]] = [
     ("krrood.adapters.json_serializer",
      ["SubclassJSONSerializer", "JSONSerializationError", "MissingTypeError", "JSONSerializableTypeRegistry", "JSON_TYPE_NAME",
       "leaf_types", "list_like_classes", "from_json", "to_json", "serialize_uuid", "uuid", "importlib", "Nope", "Dict", "Self"]),
-    (M18, [c.__name__ for c in Z.SER_CLASSES] + ["Money", "Money2", "NotSerializable", "Mixin", "PayloadError", "NODE_INSTANCE",
+    (Z.MOD_A.__name__, ["Node", "Shape", "Dog", "Money", "Cat", "nope"]),
+    (Z.MOD_B.__name__, ["Node", "Shape", "Dog", "Money", "NodeA", "nope"]),
+    (M18, [c.__name__ for c in Z.SER_CLASSES if c.__module__ == M18] + ["Money", "Money2", "NotSerializable", "Mixin", "PayloadError", "NODE_INSTANCE",
                                                  "T_VAR", "a_function", "Alias", "Z", "json", "EXT", "KEY", "Fraction", "Case",
                                                  "node", "NODE"]),
     ("props", ["c18", "c19", "nope"]),
@@ -241,7 +243,7 @@ TOKENS = ["os", "path", "json", "dumps", "props", "c18", "Node", "NodeAAAA", "Mo
 def gen_tag_string(rng) -> str:
     r = rng.random()
     if r < 0.1:  # a deserialisable class, verbatim
-        return rng.choice(GOOD_TAGS + [M18 + "." + c.__name__ for c in Z.FIXED] + ["uuid.UUID", "fractions.Fraction"])
+        return rng.choice(GOOD_TAGS + [c.__module__ + "." + c.__name__ for c in Z.FIXED] + ["uuid.UUID", "fractions.Fraction"])
     if r < 0.35:
         m, attrs = rng.choice(TABLE)
         return rng.choice(variants(m + "." + rng.choice(attrs)))
@@ -258,7 +260,8 @@ def gen_tag(rng):
 
 DOC_STRS = ["", "a", "Rex", "os.path", "12.50", "x y"]
 DOC_CLASSES = Z.GENERIC
-GOOD_TAGS = [M18 + "." + c.__name__ for c in DOC_CLASSES] + [M18 + ".Money", M18 + ".Money2", M18 + ".Alias"]
+MONEY_TAGS = [c.__module__ + "." + c.__name__ for c in Z.EXT_MONEY]
+GOOD_TAGS = [c.__module__ + "." + c.__name__ for c in DOC_CLASSES] + MONEY_TAGS + [M18 + ".Alias"]
 
 
 def gen_doc_value(rng, depth: int):
@@ -270,14 +273,14 @@ def gen_doc_value(rng, depth: int):
         if k == 1:
             return rng.choice(DOC_STRS)
         if k == 2:
-            return {KEY: rng.choice([M18 + ".Money", M18 + ".Money2"]), "value": rng.choice(DOC_STRS)}
+            return {KEY: rng.choice(MONEY_TAGS), "value": rng.choice(DOC_STRS)}
         if k == 3:
             return {KEY: "uuid.UUID", "value": VALID_PAYLOAD}
         return rng.choice([[], 3, "s"])
     if rng.random() < 0.4:
         return [gen_doc_value(rng, depth - 1) for _ in range(rng.choice([0, 1, 2, 2, 3]))]
     cls = rng.choice(DOC_CLASSES)
-    d = {KEY: M18 + "." + cls.__name__}
+    d = {KEY: cls.__module__ + "." + cls.__name__}
     for k in rng.sample(["a", "b", "x", "value", "name"], rng.choice([0, 1, 2, 2, 3])):
         d[k] = gen_doc_value(rng, depth - 1)
     return d
@@ -303,7 +306,7 @@ def corrupt(rng, j, p: float):
     return j
 
 
-PAYLOAD_AGNOSTIC = set(Z.GENERIC) | {Z.Money, Z.Money2}
+PAYLOAD_AGNOSTIC = set(Z.GENERIC) | set(Z.EXT_MONEY)
 
 
 def _target(tag):
@@ -439,7 +442,28 @@ def _classify(e: BaseException) -> str:
     return exc_name(e)
 
 
+_PRELUDE_DONE = False
+
+
+def _prelude() -> None:
+    """Process history common to every run, replays included (see props/c18.py `_prelude`): every class of the zoo has
+    been round-tripped and every name of the table has been resolved once, in a fixed order, before the first case —
+    so a resolver that keeps state between calls misbehaves reproducibly on a single later document."""
+    global _PRELUDE_DONE
+    if _PRELUDE_DONE:
+        return
+    _PRELUDE_DONE = True
+    Z._prelude()
+    for m, attrs in TABLE:
+        for a in attrs:
+            try:
+                from_json(json.loads(json.dumps({KEY: f"{m}.{a}", "value": VALID_PAYLOAD})))
+            except Exception:  # noqa: BLE001  reported by the corresponding table case, not here
+                pass
+
+
 def _one(case: Case) -> str:
+    _prelude()
     try:
         kind, x = case.payload if case.payload is not None else revive(case).payload
         del LAST_DISPATCH[:]
